@@ -15,7 +15,7 @@ def run(ctx, replay=None):
     if replay:
         return kernlib.replay(ctx, replay)
     if ctx.quick:
-        kernlib.mc_replay(ctx, "KernelMC_c04.cfg", {"MaxEv = 9": "MaxEv = 7"}, label="KernelMC/c04 3x2 ev7")
+        kernlib.mc_replay(ctx, "KernelMC_c04.cfg", {"MaxEv = 9": "MaxEv = 7", '"interrupt", "interruptn"': '"interrupt"'}, label="KernelMC/c04 3x2 ev7")
         kernlib.gen_validate(ctx, 1500, KINDS)
         kernlib.gen_validate(ctx, 2500, MIXED, label="generated-interrupts-and-conditions", orphan_finding="F19b")
     else:
